@@ -3,6 +3,7 @@ package engines
 import (
 	"errors"
 	"fmt"
+	"io"
 	"os"
 	"runtime/debug"
 	"strings"
@@ -37,6 +38,9 @@ type histCall struct {
 	Kind    int
 	Body    int
 	NoFault bool // "clean" call: advances persistent suspended activations, never faulted
+	// Src != "": RunProgram of this source text (global declarations), never faulted, judged against WantErr / WantRes
+	// (absolute expectations from GlobalDeclarationInstantiation, which is all-or-nothing)
+	Src, WantErr, WantRes string
 }
 
 // interruptBound is B of the prefix-of-counterfactual oracle: the property says "bounded", not "immediately".
@@ -258,7 +262,11 @@ func (e *faultsim) doCall(h *Host, c histCall, bodies []genBody, iterSite int) (
 		}()
 		switch c.Kind {
 		case KRunProgram:
-			p, cerr := h.compile("call", name+"()")
+			src := name + "()"
+			if c.Src != "" {
+				src = c.Src
+			}
+			p, cerr := h.compile("call", src)
 			if cerr != nil {
 				panic(cerr.Error())
 			}
@@ -460,6 +468,48 @@ func (e *faultsim) Run(t *core.Tape, want bool) *core.Result {
 		}
 	}
 	hist = append(hist, histCall{Kind: KRunProgram, Body: canaryBase + 2, NoFault: true}, histCall{Kind: KRunProgram, Body: canaryBase}, histCall{Kind: KCallable, Body: canaryBase + 1}, histCall{Kind: KCallable, Body: canaryBase})
+	// global declarations: a script that is rejected when its declarations are instantiated (a name collides with an
+	// earlier declaration) must leave none of its own bindings behind
+	{
+		lex := []string{"let", "const", "class"}
+		mk := func(kind, name string) string {
+			switch kind {
+			case "class":
+				return "class " + name + " {}"
+			case "function":
+				return "function " + name + "(){}"
+			case "var":
+				return "var " + name + " = 1"
+			}
+			return kind + " " + name + " = 1"
+		}
+		firstKind := []string{"let", "const", "class", "var", "function"}[W.Draw(5)]
+		var conflict string // a declaration kind that collides with firstKind
+		if firstKind == "var" || firstKind == "function" {
+			conflict = lex[W.Draw(3)]
+		} else {
+			conflict = []string{"let", "const", "class", "var", "function"}[W.Draw(5)]
+		}
+		var decls, names []string
+		for i, n := 0, 1+W.Draw(3); i < n; i++ {
+			nm := fmt.Sprintf("gd%d", i)
+			names = append(names, nm)
+			decls = append(decls, mk(lex[W.Draw(3)], nm))
+		}
+		// the colliding declaration goes first, last or in the middle of the script text
+		pos := W.Draw(len(decls) + 1)
+		decls = append(decls[:pos:pos], append([]string{mk(conflict, "gdup")}, decls[pos:]...)...)
+		var typeofs, redecl []string
+		for _, nm := range names {
+			typeofs = append(typeofs, "typeof "+nm)
+			redecl = append(redecl, "let "+nm+" = 7")
+		}
+		hist = append(hist,
+			histCall{Kind: KRunProgram, Body: canaryBase, NoFault: true, Src: mk(firstKind, "gdup") + "; 0"},
+			histCall{Kind: KRunProgram, Body: canaryBase, NoFault: true, Src: strings.Join(decls, "; ") + "; 0", WantErr: "SyntaxError"},
+			histCall{Kind: KRunProgram, Body: canaryBase, NoFault: true, Src: "[" + strings.Join(typeofs, ", ") + "].join()", WantRes: "string:" + strings.TrimSuffix(strings.Repeat("undefined,", len(names)), ",")},
+			histCall{Kind: KRunProgram, Body: canaryBase, NoFault: true, Src: strings.Join(redecl, "; ") + "; " + names[0], WantRes: "int64:7"})
+	}
 	nfaultable := len(faultable)
 
 	// buggify: in a third of the runs every growth of the VM value stack moves it to a fresh backing array (stale
@@ -470,11 +520,27 @@ func (e *faultsim) Run(t *core.Tape, want bool) *core.Result {
 		res.Count("buggify-stack-realloc-runs", 1)
 	}
 
+	// in an eighth of the runs the (process-wide) sampling profiler is active: the VM then executes in a different
+	// instruction loop (runWithProfiler), which has its own poll of the interrupt flag
+	profiled := false
+	if W.Draw(8) == 7 {
+		if err := goja.StartProfile(io.Discard); err == nil {
+			profiled = true
+			defer goja.StopProfile()
+			res.Count("runs-with-active-profiler", 1)
+		}
+	}
+	_ = profiled
+
 	render := func(plan map[int]*Fault, idle map[int]int) string {
 		var sb strings.Builder
 		sb.WriteString("// setup (call 0), then history:\n")
 		for i, c := range hist {
-			fmt.Fprintf(&sb, "//   call#%d %s %s()", i, callKindNames[c.Kind], allBodies[c.Body].Name)
+			if c.Src != "" {
+				fmt.Fprintf(&sb, "//   call#%d RunProgram of `%s`", i, c.Src)
+			} else {
+				fmt.Fprintf(&sb, "//   call#%d %s %s()", i, callKindNames[c.Kind], allBodies[c.Body].Name)
+			}
 			switch idle[i] {
 			case idleIntr:
 				sb.WriteString("   [Interrupt() while idle before this call]")
@@ -605,6 +671,21 @@ func (e *faultsim) Run(t *core.Tape, want bool) *core.Result {
 			if os.Getenv("VERIF_DEBUG") != "" {
 				fmt.Fprintln(os.Stderr, render(nil, nil))
 			}
+			return res
+		}
+	}
+	declProblem := func(c histCall, o callOutcome) string {
+		if c.WantErr != "" && !strings.Contains(o.err, c.WantErr) {
+			return fmt.Sprintf("the script must be rejected with a %s when its global declarations are instantiated; got result=%s err=%s", c.WantErr, o.res, core.Trunc(o.err, 200))
+		}
+		if c.WantRes != "" && (o.res != c.WantRes || o.err != "") {
+			return fmt.Sprintf("after a script was rejected at global declaration instantiation none of its bindings may exist: want result=%s, got result=%s err=%s", c.WantRes, o.res, core.Trunc(o.err, 200))
+		}
+		return ""
+	}
+	for i, o := range cf {
+		if msg := declProblem(hist[i], o); msg != "" {
+			res.Fail("global-declaration-atomicity", "global-declaration-atomicity no-fault", fmt.Sprintf("fault-free call#%d: %s", i, msg), render(nil, nil))
 			return res
 		}
 	}
